@@ -87,17 +87,22 @@ def field_default(cls, name):
 
 
 def generate_sections(ctx):
-    if not ctx.wants(PROPS):
+    if not ctx.wants(PROPS | {"C16"}):
         return
     ns = namespace(ctx)
     for fn, (clsname, keys, required) in SECTIONS.items():
+        # the met section is also a link of C16: lists, scalars and timestamps reach MetConfig as written
+        PS = PROPS | {"C16"} if fn == "_parse_met" else PROPS
+        if not ctx.wants(PS):
+            continue
         optional = [k for k in keys if k not in required]
         presence_sets = [set(keys)] + [set(keys) - {k} for k in optional] + [set(required)]
         for ps in presence_sets:
             label = "all" if ps == set(keys) else ("required-only" if ps == set(required) and len(optional) > 1 else "without-" + ",".join(sorted(set(keys) - ps)))
 
-            def thunk(run, fn=fn, clsname=clsname, keys=keys, ps=ps, label=label):
+            def thunk(run, fn=fn, clsname=clsname, keys=keys, ps=ps, label=label, PS=PS):
                 run.scope = "config_parser.%s[%s]" % (fn, label)
+                run.props = set(PS)
                 d = {k: raw_value(keys[k], k) for k in keys if k in ps}
                 out = harness.call(run, ns[fn], d)
                 obj = out.value
@@ -111,7 +116,9 @@ def generate_sections(ctx):
                     if isinstance(want, list) and want and isinstance(got, tuple):
                         want = tuple(want)
                     run.oblige("field." + k, veq(got, want), kind="post")
-            ctx.explore("config_parser.%s[%s]" % (fn, label), thunk, PROPS)
+            ctx.explore("config_parser.%s[%s]" % (fn, label), thunk, PS)
+    if not ctx.wants(PROPS):
+        return
     for fn in ("_parse_solver", "_parse_output", "_parse_parallel"):
         clsname = SECTIONS[fn][0]
 
